@@ -787,6 +787,18 @@ class LibMixin:
                 if hit is not None:
                     return [(st, hit)]
                 return [self.raised(st, "KeyError", key.name)]
+        if isinstance(obj, VConst) and isinstance(obj.py, tuple) and obj.py and obj.py[0] == "path-parts":
+            # one component of Path.parts: an uninterpreted string (only `'..' in parts` is related
+            # to the path model; nothing follows from a single component), IndexError when empty
+            idx = key.t if isinstance(key, VInt) else None
+            if idx is None:
+                raise Unsupported("non-integer subscript of Path.parts")
+            part = z3.Function("path_part", U, I, S)(obj.py[1].t, idx)
+            has = z3.Function("path_has_part", U, I, B)(obj.py[1].t, idx)
+            out = []
+            for s, ok in self.branch(st, has):
+                out.append((s, VStr(part)) if ok else self.raised(s, "IndexError", "tuple index out of range"))
+            return out
         raise Unsupported(f"subscript of {type(obj).__name__}")
 
     def class_table_lookup(self, mod, lit, key):
